@@ -667,6 +667,48 @@ func (r *c13Run) run() {
 	if r.res.Inconclusive != "" {
 		return
 	}
+	if spec.HighPenalty {
+		// one instance of the scenario for certain: an oracle that is offline with a penalty due, whose validator
+		// now signs twice (the delegation loses 5 %), and which governance then removes: less than the recorded
+		// stake comes back while the penalty fraction is about to be one
+		for i, m := range r.os[:spec.N] {
+			rec, found := b.K.GetOracle(c.Ctx, m.o.Oracle.Acc())
+			if !found || m.gone || m.removed || rec.Online || rec.SlashTimes == 0 {
+				continue
+			}
+			vi := -1
+			for k, v := range c.Vals {
+				if v.Operator.Val().String() == rec.DelegateValidator {
+					vi = k
+				}
+			}
+			if vi < 1 || c.Absent[vi] {
+				continue
+			}
+			var keep []string
+			for j, q := range r.os {
+				if j != i && j < spec.N && !q.removed {
+					keep = append(keep, q.o.Oracle.Bech32())
+				}
+			}
+			if len(keep) == 0 {
+				continue
+			}
+			c.DoubleSign(vi)
+			r.valSlashed = true
+			r.res.Count("validator_slashes", 1)
+			if !r.block(0) || !r.block(0) {
+				return
+			}
+			stake := r.total(m.o)
+			if res := c.Msg(&crosschaintypes.MsgUpdateChainOracles{ChainName: spec.Chain, Oracles: keep, Authority: chain.GovAuthority()}); res.OK() {
+				m.removed, m.stakeAtRemoval, m.removedAt = true, stake, c.Time
+				r.res.Count("gov_removals", 1)
+				r.res.Count("slashed_oracles_on_a_slashed_validator_removed_before_the_maximal_penalty", 1)
+			}
+			break
+		}
+	}
 	// close every life cycle: remove everything that is left (keeping one), mature, unbond
 	if !r.block(22*24*time.Hour) || !r.block(0) {
 		return
